@@ -98,6 +98,12 @@ class PolarsCheckBackend(BaseCheckBackend):
             results = results.with_columns(
                 pl.col(CHECK_OUTPUT_KEY) | pl.col(CHECK_OUTPUT_KEY).is_null()
             )
+        else:
+            # polars aggregations skip nulls: a null output counts as a
+            # failure when null values are not ignored
+            results = results.with_columns(
+                pl.col(CHECK_OUTPUT_KEY).fill_null(False)
+            )
         passed = results.select([pl.col(CHECK_OUTPUT_KEY).all()])
         failure_cases = pl.concat(
             [check_obj.lazyframe, results], how="horizontal"
